@@ -182,6 +182,9 @@ func (e *Engine) unsupported(format string, args ...interface{}) {
 	if e.cur != nil && len(e.cur.frames) > 0 {
 		f := e.cur.frames[len(e.cur.frames)-1]
 		msg += " at " + e.where(f)
+		for i := len(e.cur.frames) - 2; i >= 0 && i >= len(e.cur.frames)-6; i-- {
+			msg += " < " + e.cur.frames[i].fn.Name()
+		}
 	}
 	panic(pathEnd{"error", msg})
 }
